@@ -440,3 +440,97 @@ pub fn replay(run: &Run, case: &J) {
         run.violation("blackbox-engine-died", String::new(), J::Null, "the engine process ended".into());
     }
 }
+
+
+/// C14, wall-clock clause ("given at least a fifth of a second on its clock, a search returns its move before that
+/// clock would have run out"), on the optimised binary. This part is a MEASUREMENT, not an enumeration: real time
+/// cannot be enumerated. To stay silent on a loaded machine a scenario counts as violated only if the BEST of five
+/// attempts (fresh process each) oversteps the clock, and only if a calibration run shows that the sandbox can time
+/// a 100 ms search to within 60 ms at all; otherwise the family is reported as not completed.
+pub fn c14_wallclock(run: &Run) -> (u64, u64) {
+    use std::time::{Duration, Instant};
+    if crate::report::is_nd_child().is_some() {
+        return (0, 0); // one copy of the measurement is enough, and two would disturb each other
+    }
+    let Some(bin) = need_bin(run) else { return (0, 0) };
+    let hash_max = crate::ucichk::spin_options().iter().find(|o| o.name == "Hash").map(|o| o.max).unwrap_or(256);
+    let big = hash_max.min(2048);
+    let attempt = |prelude: &[String], go: &str| -> Result<Duration, String> {
+        let mut e = Engine::start(&bin)?;
+        e.send("uci")?;
+        e.wait_for("uciok", Duration::from_secs(20))?;
+        let mut ready = 0usize;
+        for l in prelude {
+            e.send(l)?;
+            if l == "isready" {
+                ready += 1;
+                e.wait_for_count("readyok", ready, Duration::from_secs(120))?;
+            }
+            if l.starts_with("go ") {
+                let n = e.count("bestmove") + 1;
+                e.wait_for_count("bestmove", n, Duration::from_secs(120))?;
+            }
+        }
+        e.send("isready")?;
+        e.wait_for_count("readyok", ready + 1, Duration::from_secs(120))?;
+        let before = e.count("bestmove");
+        let t0 = Instant::now();
+        e.send(go)?;
+        e.wait_for_count("bestmove", before + 1, Duration::from_secs(30))?;
+        let dt = t0.elapsed();
+        let _ = e.quit(Duration::from_secs(10));
+        Ok(dt)
+    };
+    // calibration
+    let mut cal = Duration::from_secs(99);
+    for _ in 0..5 {
+        if let Ok(d) = attempt(&["position startpos".to_string()], "go movetime 100") {
+            cal = cal.min(d);
+        }
+    }
+    run.note(format!("wall-clock calibration: best of five `go movetime 100` answered after {cal:?}"));
+    if cal > Duration::from_millis(160) {
+        run.note("the sandbox is too loaded to time searches: the wall-clock scenarios were not judged".to_string());
+        run.family("E7-WALL-CLOCK", "measurement (not an enumeration): skipped, calibration failed", 0, 0, false, "sandbox too loaded");
+        return (0, 0);
+    }
+    let kiwi = "position fen r3k2r/p1ppqpb1/bn2pnp1/3PN3/1p2P3/2N2Q1p/PPPBBPPP/R3K2R w KQkq - 0 1".to_string();
+    let kiwib = "position fen r3k2r/p1ppqpb1/bn2pnp1/3PN3/1p2P3/2N2Q1p/PPPBBPPP/R3K2R w KQkq - 0 1 moves e1g1".to_string();
+    let sp = "position startpos".to_string();
+    let hash = |n: usize| format!("setoption name Hash value {n}");
+    let scenarios: Vec<(Vec<String>, &str, u64)> = vec![
+        (vec![sp.clone()], "go wtime 200 btime 200", 200),
+        (vec![kiwib.clone()], "go wtime 200 btime 200", 200),
+        (vec![hash(big), "isready".into(), "ucinewgame".into(), "isready".into(), sp.clone()], "go wtime 200 btime 200", 200),
+        (vec![hash(big), "isready".into(), kiwi.clone(), "go depth 9".into(), "ucinewgame".into(), "isready".into(), kiwi.clone()], "go wtime 250 btime 250 winc 10 binc 10", 250),
+        (vec![kiwi.clone(), "go depth 9".into(), hash(big), "isready".into(), kiwi.clone()], "go wtime 200 btime 200", 200),
+        (vec![hash(big), "isready".into(), sp.clone(), "go depth 8".into(), sp.clone()], "go wtime 200 btime 200 movestogo 1", 200),
+    ];
+    let mut n = 0u64;
+    for (prelude, go, clock_ms) in &scenarios {
+        let mut best = Duration::from_secs(99);
+        let mut errs = vec![];
+        for _ in 0..5 {
+            n += 1;
+            match attempt(prelude, go) {
+                Ok(d) => {
+                    best = best.min(d);
+                    if d < Duration::from_millis(*clock_ms) / 2 + Duration::from_millis(20) {
+                        break;
+                    }
+                }
+                Err(e) => errs.push(e),
+            }
+        }
+        let mut lines = prelude.clone();
+        lines.push(go.to_string());
+        run.distinct_outcome(format!("{} ms class", best.as_millis() / 25 * 25));
+        if errs.len() == 5 {
+            run.violation("blackbox-no-bestmove", format!("wallclock|{}", lines.join(" ; ")), case(&lines), format!("optimised build, [{}]: {}", lines.join(" ; "), errs[0]));
+        } else if best >= Duration::from_millis(*clock_ms) {
+            run.violation("move-after-the-clock-ran-out", format!("wallclock|{}", lines.join(" ; ")), J::obj(vec![("kind", J::s("wallclock")), ("lines", J::Arr(lines.iter().map(|l| J::s(l.clone())).collect())), ("clock_ms", J::i(*clock_ms))]), format!("optimised build, [{}]: the best of five attempts answered after {best:?} with {clock_ms} ms on the clock (calibration: a 100 ms search is timed as {cal:?})", lines.join(" ; ")));
+        }
+    }
+    run.family("E7-WALL-CLOCK", &format!("measurement (not an enumeration): 6 scenarios on the optimised binary (plain; first search after ucinewgame on a {big} MB table, empty and used; first search after a resize; used large table), clock 200-250 ms, best of five attempts each must answer before the clock runs out"), n, n, true, "labelled measurement; real time cannot be enumerated");
+    (n, n)
+}
